@@ -117,7 +117,8 @@ static unsigned int assemble_imm(struct instr *instruc, unsigned char ptr[]) {
   if (!zero_pad)
     return ptr_pos;
   // now calculate the required amount of zero-bytes to pad
-  bool opd0_is_16 = opd0_mode == reg16 || opd0_mode == ext16;
+  bool opd0_is_16 = opd0_mode == reg16 || opd0_mode == ext16 ||
+                    (instruc->mem_disp && instruc->keyword.is_word);
   if (bytes <= DWORD_BYTES && !(bytes == 1 && opd0_is_16))
     bytes = DWORD_BYTES - bytes;
   else if (bytes > DWORD_BYTES && bytes <= QWORD_BYTES)
